@@ -131,6 +131,13 @@ def pyIndex (len : Nat) (i : Int) : Option Nat :=
   if 0 ≤ i then (if i.toNat < len then some i.toNat else none)
   else (if (-i).toNat ≤ len then some (len - (-i).toNat) else none)
 
+/-- the index check of `insertRule` (`cssstylesheet.py:592-599`, `cssrule.py:240-248`): `None` means "append";
+`none` = IndexSizeErr -/
+def idxOf (index : Option Int) (len : Nat) : Option Nat :=
+  match index with
+  | none => some len
+  | some i => if i < 0 || i > (len : Int) then none else some i.toNat
+
 /-- `[r.type for r in l]`: the position checks of `insertRule` read nothing else of the rules -/
 def kindsOf (l : List Rule) : List Kind := l.map (·.kind)
 
@@ -334,11 +341,7 @@ Returns the container with its new list, objects dropped, outcome. -/
 def cInsert (raising : Bool) (c : Rule) (r : Rule) (index : Option Int) (viaStr : Bool) :
     Rule × List Rule × Outcome :=
   let held := if viaStr then [] else [r]
-  let len : Int := c.kids.length
-  let idx? : Option Nat := match index with
-    | none => some c.kids.length
-    | some i => if i < 0 || i > len then none else some i.toNat
-  match idx? with
+  match idxOf index c.kids.length with
   | none => (c, held, .err .indexSize)                                       -- cssrule.py:243-248 (raise)
   | some idx =>
     if containerRejects c.kind r.kind then (c, held, logError raising .hierarchy)
@@ -532,13 +535,9 @@ def parseCand (raising : Bool) (d : Dict) (next : Nat) (s : Spec) : Except Err (
 /-- `CSSStyleSheet.insertRule(rule, index, inOrder)` / `add(rule)`; `viaStr`: `rule` is given as CSS text (parsed in a
 temp sheet); `track`: the caller holds the rule object (false for text and for objects made inside a setter) -/
 def insertRule (st : St) (s : Spec) (index : Option Int) (inOrder viaStr track : Bool) : St × Outcome :=
-  let len : Int := st.rules.length
-  let idx? : Option Nat := match index with
-    | none => some st.rules.length                                           -- :592-593
-    | some i => if i < 0 || i > len then none else some i.toNat
   let d := nsDict st.rules
   if viaStr then
-    match idx? with
+    match idxOf index st.rules.length with
     | none => (st, .err .indexSize)                                          -- :594-599 (raise)
     | some idx =>
       match parseCand st.raising d st.next s with                            -- :601-634
@@ -549,7 +548,7 @@ def insertRule (st : St) (s : Spec) (index : Option Int) (inOrder viaStr track :
     let c := Spec.inst none st.next s
     let st1 := { st with next := c.2 }
     let held := if track then [c.1] else []
-    match idx? with
+    match idxOf index st.rules.length with
     | none => ({ st1 with gone := st1.gone ++ held }, .err .indexSize)
     | some idx =>
       if !s.wellformed then                                                  -- :646-648
@@ -610,11 +609,7 @@ def nInsert (st : St) (path : List Nat) (s : Spec) (index : Option Int) (viaStr 
   | some c =>
     if !isContainer c then (st, .badOp) else
     if viaStr then
-      let len : Int := c.kids.length
-      let bad : Bool := match index with
-        | none => false
-        | some i => i < 0 || i > len
-      if bad then (st, .err .indexSize) else                                 -- cssrule.py:243-248 precedes the parse
+      if (idxOf index c.kids.length).isNone then (st, .err .indexSize) else  -- cssrule.py:243-248 precedes the parse
       match parseCand st.raising [] st.next s with                           -- temp sheet without namespaces, :251-260
       | .error e => (st, .err e)
       | .ok none => (st, logError st.raising .syntaxErr)
